@@ -69,7 +69,7 @@ Lemma Inv_mon_in : forall acc s mn i e,
   Inv acc s mn -> Inv (acc_upd i e mn acc) s (mon_in i e mn).
 Proof.
   intros acc s mn i e He K. unfold acc_upd.
-  destruct e as [j|j f|k a|j t|j|j| |jh k a]; cbn [mon_in]; try (apply Inv_acc_mono; exact K).
+  destruct e as [j|j f|k a|j t|j|j| |jh k a| ]; cbn [mon_in]; try (apply Inv_acc_mono; exact K).
   - apply Nat.eqb_neq in He. rewrite He. apply Inv_acc_mono; exact K.
   - destruct (mcur mn) as [k'|] eqn:Ec; [|apply Inv_acc_mono; exact K].
     destruct (Nat.eqb k k' && allowed_of a); [|apply Inv_acc_mono; exact K].
@@ -132,7 +132,7 @@ Lemma step_Inv : forall v i st e mn acc, vrep v = true -> vhl v = true -> SInv i
   exists mn', mon_outs i (snd (step v st e)) (mon_in i e mn) = Some mn' /\
               SInv i (fst (step v st e)) mn' (acc_upd i e mn acc).
 Proof.
-  intros v i st e mn acc Hv Hh HS. destruct e as [j|j f|k a|j t|j|j| |jh k a]; cbn [step].
+  intros v i st e mn acc Hv Hh HS. destruct e as [j|j f|k a|j t|j|j| |jh k a| ]; cbn [step].
   - (* PADR *)
     apply on_slot_step.
     + intros E. apply SInv_mon_in; auto.
@@ -186,6 +186,15 @@ Proof.
     destruct (pend_matches v k sj) eqn:Hp;
       [|cbn [fst snd mon_outs]; eexists; split; [reflexivity|]; apply SInv_mon_in; auto].
     apply (aaa_slot_step v i st mn acc jh k a (EvAAAHeld jh k a) sj); auto.
+  - (* dataplane add failed *)
+    assert (K : SInv i st (mon_in i EvSbFail mn) (acc_upd i EvSbFail mn acc)) by (apply SInv_mon_in; auto).
+    destruct (queue st) as [|[j g] q]; [eexists; split; [reflexivity|exact K]|].
+    set (st' := mkSt (sl st) (nreq st) (free st) q (free6 st)).
+    assert (K' : SInv i st' (mon_in i EvSbFail mn) (acc_upd i EvSbFail mn acc)) by exact K.
+    destruct (nth_error (sl st) j) as [s|] eqn:Hn; [destruct (Nat.eqb (gen s) g)|]; cbn [fst snd].
+    + apply on_slot_step; [intros _; exact K'|]. intros E s0 Hs0. apply sb_fail_Inv. apply (K' s0 Hs0).
+    + eexists; split; [|exact K']. cbn. destruct (Nat.eqb i nslots); reflexivity.
+    + eexists; split; [reflexivity|exact K'].
 Qed.
 
 (* ------------------------------------------------------------------ *)
@@ -294,7 +303,7 @@ Proof.
   cbn [mon_run accepted_in map fst] in *.
   assert (K : mok (mon_in i e mn) = false).
   { pose proof (Ha e (or_introl eq_refl)) as Ne.
-    destruct e as [j|j f|k a|j t|j|j| |jh k a]; cbn [mon_in]; auto; try (destruct (Nat.eqb i j); auto).
+    destruct e as [j|j f|k a|j t|j|j| |jh k a| ]; cbn [mon_in]; auto; try (destruct (Nat.eqb i j); auto).
     - destruct (mcur mn); auto. cbn in Ne. rewrite Ne, andb_false_r. auto.
     - destruct (mcur mn); auto. cbn in Ne. rewrite Ne, andb_false_r. auto. }
   rewrite K. cbn [orb]. destruct (mon_outs i o (mon_in i e mn)) as [mn'|] eqn:Eo; auto.
